@@ -180,9 +180,11 @@ func runC18(payload string) string {
 			must(err)
 			name := ts[0].(engine.Atom).String()
 			res = append(res, fmt.Sprintf("probe %s %s %s %s",
-				readProbe(i, "X = (a "+name+" b)"),
-				readProbe(i, "X = ("+name+" a)"),
-				readProbe(i, "X = (a "+name+")"),
+				// functional notation: the probe text itself must not depend on any operator
+				// (a history may remove '=' from the table)
+				readProbe(i, "'='(X, (a "+name+" b))"),
+				readProbe(i, "'='(X, ("+name+" a))"),
+				readProbe(i, "'='(X, (a "+name+"))"),
 				writeProbe(i, name)))
 		default:
 			panic("bad op " + f[0])
